@@ -59,7 +59,7 @@ theorem roles_complementary_any_offer (offer : List (List Attr)) (v : String) (n
     (hv : firstSetup offer = some v) :
     exchangeForeignOffer ⟨.webrtc, none⟩ ⟨.webrtc, none⟩ offer n =
       (⟨.webrtc, some (!isClientOfRemoteSetup v)⟩, ⟨.webrtc, some (isClientOfRemoteSetup v)⟩) := by
-  simp [exchangeForeignOffer, Ep.setRemote, roleAfterRemote, hv, firstSetup_localDesc _ _ n hn,
+  simp [exchangeForeignOffer, Ep.setRemote, roleAfterRemote, roleAfterRemoteFull, hv, firstSetup_localDesc _ _ n hn,
     isClient_of_answer_setup]
 
 example : firstSetup [[⟨"mid", some "0"⟩, ⟨"setup", none⟩], [⟨"setup", some "holdconn"⟩]] = some "holdconn" := by
@@ -70,40 +70,53 @@ the hypothesis of `roles_complementary_any_offer` is necessary. rustrtc's own We
 one (`firstSetup_localDesc`). -/
 theorem no_setup_no_role (offer : List (List Attr)) (n : Nat) (h : firstSetup offer = none) :
     (exchangeForeignOffer ⟨.webrtc, none⟩ ⟨.webrtc, none⟩ offer n).2.role = none := by
-  simp [exchangeForeignOffer, Ep.setRemote, roleAfterRemote, h]
+  simp [exchangeForeignOffer, Ep.setRemote, roleAfterRemote, roleAfterRemoteFull, h]
 
-/-- **roles_stable**: the role is decided once ("first value wins" on the `dtls_role` watch): for every
-later history of re-negotiations, in either direction, with any section counts, two WebRTC endpoints with
-complementary roles keep exactly those roles. -/
-theorem roles_stable (r : Bool) (h : List (Bool × Nat)) :
-    exchanges ⟨.webrtc, some r⟩ ⟨.webrtc, some (!r)⟩ h = (⟨.webrtc, some r⟩, ⟨.webrtc, some (!r)⟩) := by
-  induction h with
-  | nil => rfl
-  | cons x xs ih =>
-    obtain ⟨d, n⟩ := x
+/-- **roles_fixed_once_started**: once a role is set and the DTLS transport exists, no later remote
+description — any sections, any session-level `a=setup`, any mode — changes it (the guard
+`current_role.is_none() || dtls_transport.is_none()` of the role block). -/
+theorem roles_fixed_once_started (m : Mode) (r : Bool) (sections : List (List Attr)) (sess : Option String) :
+    roleAfterRemoteFull m (some r) true sections sess = some r := by
+  simp [roleAfterRemoteFull]
+
+/-- **roles_follow_latest_offer**: until the DTLS transport exists the role follows the latest description
+(SDP fix "the DTLS role follows a later description until the DTLS transport exists"; before it the first
+value won for good): after every complete exchange, whatever roles earlier exchanges left, the offerer of
+*that* exchange is the client and its answerer the server. -/
+theorem roles_follow_latest_offer (ro ra : Option Bool) (n : Nat) (hn : 0 < n) :
+    exchange ⟨.webrtc, ro⟩ ⟨.webrtc, ra⟩ n = (⟨.webrtc, some true⟩, ⟨.webrtc, some false⟩) :=
+  exchange_any ro ra n hn
+
+/-- **roles_complementary_forever**: from two fresh endpoints, after a first exchange and any further
+history of re-negotiations (either side offering, ≥ 1 section each) before the transport exists, the roles
+are complementary after every exchange. -/
+theorem roles_complementary_forever (x y : Ep) (hx : x.mode = .webrtc) (hy : y.mode = .webrtc)
+    (h : List (Bool × Nat)) (hne : h ≠ []) (hpos : ∀ e ∈ h, 0 < e.2) :
+    ∃ r : Bool, exchanges x y h = (⟨.webrtc, some r⟩, ⟨.webrtc, some (!r)⟩) := by
+  induction h generalizing x y with
+  | nil => exact absurd rfl hne
+  | cons e rest ih =>
+    obtain ⟨d, n⟩ := e
+    have hn : 0 < n := hpos (d, n) (by simp)
+    obtain ⟨mx, rx⟩ := x
+    obtain ⟨my, ry⟩ := y
+    simp only at hx hy
+    subst hx; subst hy
     cases d
-    · have := exchange_set (!r) n
-      simp only [Bool.not_not] at this
-      simp [exchanges, this, ih]
-    · simp [exchanges, exchange_set r n, ih]
-
-/-- **roles_complementary_forever**: from two fresh endpoints, after a first exchange (either side
-offering, ≥ 1 section) and any further history, the roles are complementary. -/
-theorem roles_complementary_forever (xOffers : Bool) (n : Nat) (hn : 0 < n) (h : List (Bool × Nat)) :
-    ∃ r : Bool, exchanges ⟨.webrtc, none⟩ ⟨.webrtc, none⟩ ((xOffers, n) :: h) =
-      (⟨.webrtc, some r⟩, ⟨.webrtc, some (!r)⟩) := by
-  cases xOffers
-  · refine ⟨false, ?_⟩
-    simp only [exchanges, exchange_fresh n hn]
-    exact roles_stable false h
-  · refine ⟨true, ?_⟩
-    simp only [exchanges, exchange_fresh n hn, if_true]
-    exact roles_stable true h
+    · -- y offers
+      simp only [exchanges, exchange_any ry rx n hn]
+      by_cases hr : rest = []
+      · subst hr; exact ⟨false, by simp [exchanges]⟩
+      · simpa using ih ⟨.webrtc, some false⟩ ⟨.webrtc, some true⟩ rfl rfl hr (fun e he => hpos e (by simp [he]))
+    · simp only [exchanges, exchange_any rx ry n hn, if_true]
+      by_cases hr : rest = []
+      · subst hr; exact ⟨true, by simp [exchanges]⟩
+      · simpa using ih ⟨.webrtc, some true⟩ ⟨.webrtc, some false⟩ rfl rfl hr (fun e he => hpos e (by simp [he]))
 
 /-- the direct modes never consult `a=setup`: both ends are `Some(true)` and no DTLS runs -/
 theorem direct_modes_role (m : Mode) (hm : m ≠ .webrtc) (n : Nat) :
     exchange ⟨m, none⟩ ⟨m, none⟩ n = (⟨m, some true⟩, ⟨m, some true⟩) := by
-  cases m <;> simp_all [exchange, Ep.setRemote, roleAfterRemote]
+  cases m <;> simp_all [exchange, Ep.setRemote, roleAfterRemote, roleAfterRemoteFull]
 
 /-! ### data-channel stream ids -/
 
@@ -120,7 +133,8 @@ theorem dc_ids_disjoint (ra rb : Option Bool) (h : ra.getD true ≠ rb.getD true
   rw [ha] at hb
   cases hra : ra.getD true <;> cases hrb : rb.getD true <;> simp_all [dcOffset]
 
-/-- **Witness (known finding `dc:both-ends-precreate:same-stream-id`)**: the role is `None` until the first
+/-- **Witness (an observation recorded in the evidence, not a C10 finding: with equal ids a message still
+arrives intact in each direction — the two channels are fused into one stream)**: the role is `None` until the first
 remote description arrives, and `None` allocates like the client. An answerer that creates a channel before
 `set_remote_description` therefore gets a client-parity id although it becomes the DTLS *server*: both ends
 allocate stream id 0. The full statement "complementary roles ⇒ disjoint ids" is false for channels created
@@ -275,12 +289,13 @@ theorem sdes_rustrtc_pair (ka kb : List UInt8) (ha : ka.length = sdesGeneratedLe
 
 /-! ### transport plan of the direct modes -/
 
-/-- **mux_agreed**, for independent policies and compatibility modes of the two ends
-(`(muxO, legacyO)` offerer, `(muxA, legacyA)` answerer): the answer carries `a=rtcp-mux` only if the offer
-does (the `retain`), it does iff additionally the answerer's own policy puts it there, the offerer binds an
-RTCP socket exactly when it does not offer mux, and the answerer binds one exactly when the *offer* had no
-mux (`needs_rtcp`). -/
-theorem mux_agreed (muxO legacyO muxA legacyA : Bool) :
+/-- *Lemma (four definitional unfoldings, not a property theorem)*: for independent policies and
+compatibility modes of the two ends the answer carries `a=rtcp-mux` only if the offer does (the `retain`),
+iff additionally the answerer's own policy puts it there; the offerer binds an RTCP socket exactly when it
+does not offer mux, the answerer exactly when the *offer* had no mux (`needs_rtcp`). What the property needs
+— "multiplexing agreed, or both ends have an RTCP socket" — is `mux_agreed_same_policy` (true) and
+`mux_mixed_policy_no_rtcp_socket_witness` (false for mixed policies). -/
+theorem lemma_mux_answer_follows_offer (muxO legacyO muxA legacyA : Bool) :
     let offerMux := sectionHasMux muxO legacyO .offer false
     let answerMux := sectionHasMux muxA legacyA .answer offerMux
     (answerMux = true → offerMux = true) ∧
@@ -299,7 +314,8 @@ theorem mux_agreed_same_policy (muxRequire legacySip : Bool) :
     needsRtcpSocket muxRequire legacySip .answer offerMux = !answerMux := by
   cases muxRequire <;> cases legacySip <;> decide
 
-/-- **Witness (known finding `mux:rtp-mixed-policy:…`)**: "each end has an RTCP socket exactly when RTCP is
+/-- **Witness (an observation recorded in the evidence, not a C10 finding: no clause of the property mentions
+RTCP)**: "each end has an RTCP socket exactly when RTCP is
 not multiplexed" is false for mixed policies: a `Require` offerer facing a `Negotiate` (or LegacySip)
 answerer offers mux, the answer drops it, and *neither* end has bound an RTCP socket — the answerer because
 the offer had mux, the offerer because it offered mux: RTCP has no port to go to. -/
@@ -346,5 +362,15 @@ theorem bundle_agreed (legacySip : Bool) (n : Nat) :
     let ob := willBundle legacySip .offer n false
     willBundle legacySip .answer n ob = ob := by
   cases legacySip <;> simp [willBundle]
+
+/-- **bundle_answer_follows_offer**, independent compatibility modes of the two ends: the answer groups the
+sections only if the offer did, and does so exactly when the answerer is not in LegacySip mode — a LegacySip
+answerer never BUNDLEs even when a Standard peer offers it (the `!LegacySip` conjunct of the answer arm,
+compared with the code by the `muxsdp2` stream). -/
+theorem bundle_answer_follows_offer (legacyO legacyA : Bool) (n : Nat) :
+    let ob := willBundle legacyO .offer n false
+    let ab := willBundle legacyA .answer n ob
+    (ab = true → ob = true) ∧ ab = (!legacyA && ob) := by
+  cases legacyO <;> cases legacyA <;> simp [willBundle]
 
 end RtcModel.Theorems.C10
